@@ -715,7 +715,9 @@ def mks(name, ver, prios, H, div, cap, items, **kw):
 def simple_configs(tier):
     return [mks("simple2fair", 2, [3, 2, 1], 4, "fair", 2, 5), mks("simple2rate", 2, [2, 1], 3, "rate", 1, 6),
             mks("simple1", 1, [2, 1], 3, "rate", 2, 6, stop=True, cancel=True, graceful=True),
-            mks("simple1fair", 1, [3, 2, 1], 4, "fair", 1, 4, stop=True, graceful=True)]
+            mks("simple1fair", 1, [3, 2, 1], 4, "fair", 1, 4, stop=True, graceful=True),
+            # fewer handlers than inputs (v1 accepts it; v2 New refuses): the configured quantity is still the bound (seeded change C01-f)
+            mks("simple1few", 1, [3, 2, 1], 2, "fair", 1, 4, stop=True, graceful=True)]
 
 
 def record_simple(binary, sc, cfg, runs, timeout=900, only=0):
